@@ -233,6 +233,22 @@ type incObs struct {
 	leaderLast uint64
 	applied    uint64
 	state      State
+
+	termAtStart         uint64
+	lastTimeoutNow      int64
+	lastConfigChange    int64
+	lastElectionTimeout int64
+	heardLeader         uint64
+	heardTerm           uint64
+	heardAt             int64
+	voteTermBefore      uint64
+	xferPending         *transferRec2
+	xferTask            *task
+	xfer                *transferRec2
+	cfgCheckedAt        uint64
+	cfgCheckedPrev      uint64
+	cfgCheckedSnap      uint64
+	tvTerm, tvVote      uint64
 }
 
 type ledgers struct {
@@ -257,6 +273,8 @@ type ledgers struct {
 	cfgAt  map[uint64]*Config
 	snapsSeen map[string]bool
 
+	x ledgers2
+
 	probeOp     *opRec
 	probeDone   bool
 	settled     bool
@@ -273,6 +291,7 @@ func (l *ledgers) init(run *simRun) {
 	l.okUpdates = map[uint64]*opRec{}
 	l.cfgAt = map[uint64]*Config{}
 	l.snapsSeen = map[string]bool{}
+	l.init2()
 	l.candidates = map[uint64]int{}
 	l.appliedBy = map[uint64]int{}
 }
@@ -301,8 +320,17 @@ func (l *ledgers) onStarted(ni *nodeInc) {
 			l.everVoter[id] = true
 		}
 	}
+	o.lastTimeoutNow, o.lastConfigChange, o.lastElectionTimeout, o.heardAt = -1, -1, -1, -1
+	o.tvTerm, o.tvVote = r.term, r.votedFor
+	l.onStartedVotes(ni)
+	if l.run.stop {
+		return
+	}
 	// C10: the log a node restarts with is contiguous with its latest snapshot
 	prev, last, snap := r.log.PrevIndex(), r.lastLogIndex, r.snaps.index
+	if ni.n > 0 && ni.node.lastCrashAtIO {
+		l.run.reach("restart_after_io_crash")
+	}
 	if ni.n > 0 && ni.node.wiped == 0 && ni.node.ackedIndex > 0 {
 		ai, at := ni.node.ackedIndex, ni.node.ackedTerm
 		if ai > last && ai > snap {
@@ -332,7 +360,7 @@ func (l *ledgers) onStarted(ni *nodeInc) {
 	l.scanLog(ni, true)
 }
 
-func (l *ledgers) onServeReturned(ni *nodeInc) {}
+func (l *ledgers) onServeReturned(ni *nodeInc) { l.onServeReturned2(ni) }
 
 // onStartFailed: C10 — a node restarted on the directory a crash left behind must start.
 func (l *ledgers) onStartFailed(ni *nodeInc, what string, err error) {
@@ -599,6 +627,17 @@ func (l *ledgers) observe(ni *nodeInc) {
 		ni.node.maxTermSeen = r.term
 	}
 	o.term, o.votedFor = r.term, r.votedFor
+	if o.tvTerm != r.term || o.tvVote != r.votedFor {
+		o.tvTerm, o.tvVote = r.term, r.votedFor
+		l.checkTermVoteDurable(ni)
+		if run.stop {
+			return
+		}
+	}
+	l.checkTransferInProgress(ni)
+	if run.stop {
+		return
+	}
 	if o.snapIndex != r.snaps.index || o.snapTerm != r.snaps.term {
 		l.onSnapshotPublished(ni)
 		if run.stop {
@@ -637,6 +676,12 @@ func (l *ledgers) observe(ni *nodeInc) {
 			}
 		}
 		o.commit = c
+	}
+	if ni.idle() {
+		l.checkIdleAuthority(ni)
+		if !run.stop {
+			l.checkIdleStatus(ni)
+		}
 	}
 }
 
@@ -689,6 +734,9 @@ func (l *ledgers) onSnapshotPublished(ni *nodeInc) {
 	}
 	l.snapsSeen[key] = true
 	run.reach("snapshot_published")
+	if len(l.cfgIdx) >= 2 {
+		run.reach("snapshot_after_config_change")
+	}
 	// (index, term) is a committed entry
 	ct, ok := l.committed[idx]
 	if !ok {
@@ -940,6 +988,9 @@ func (l *ledgers) onRestore(f *recFSM, index, term uint64) {
 // ---- configuration entries (C08 hook) ------------------------------------------------------
 
 func (l *ledgers) onConfigEntry(ni *nodeInc, index, term uint64, c *Config) {
+	if index > 1 {
+		l.checkConfigStep(ni, index, c)
+	}
 	for id, n := range c.Nodes {
 		if n.Voter {
 			l.everVoter[id] = true
@@ -1008,12 +1059,33 @@ func (l *ledgers) onMemberReturn(rec *memberRec, t Task, done bool) {
 	}
 }
 
-type transferRec struct{}
+type transferRec struct {
+	inc    *nodeInc
+	target uint64
+	term0  uint64
+}
 
 func (l *ledgers) onTransferInvoke(ni *nodeInc, target uint64, timeout time.Duration) *transferRec {
-	return &transferRec{}
+	l.run.reach("transfer_request")
+	return &transferRec{inc: ni, target: target, term0: ni.r.term}
 }
-func (l *ledgers) onTransferReturn(rec *transferRec, t Task, done bool) {}
+
+func (l *ledgers) onTransferReturn(rec *transferRec, t Task, done bool) {
+	run := l.run
+	if !done || rec.inc.dead {
+		return
+	}
+	if t.Err() != nil {
+		run.reach("transfer_failed")
+		return
+	}
+	run.reach("transfer_succeeded")
+	r := rec.inc.r
+	// success means: the old leader has stepped down in favour of a higher term
+	if r.term <= rec.term0 {
+		run.violate("C16", "transfer_success_without_new_term", "transfer_ok_same_term", "TransferLeadership on %v returned success but the node is still in term %d (state %v), the term in which the request was submitted", rec.inc, r.term, r.state)
+	}
+}
 
 // ---- tracer and probes ----------------------------------------------------------------------
 
@@ -1026,6 +1098,26 @@ func (run *simRun) installTracer() {
 		}
 		if r.state == Leader {
 			run.led.sawLeader(ni, r.term)
+			run.led.onBecameLeader(ni)
+		}
+	}
+	tracer.roundCompleted = func(r *Raft, id uint64, rd round) {
+		ni := run.raftOf[r]
+		if ni == nil || ni.dead {
+			return
+		}
+		run.reach("round_completed")
+		run.led.x.rounds[fmt.Sprintf("%d/%d/%d/%d", ni.node.id, ni.n, r.term, id)] = rd.LastIndex
+	}
+	tracer.configChanged = func(r *Raft) {
+		if ni := run.raftOf[r]; ni != nil && !ni.dead && ni.obs.started {
+			ni.obs.lastConfigChange = run.sim.Now
+		}
+	}
+	tracer.configReverted = func(r *Raft) {
+		if ni := run.raftOf[r]; ni != nil && !ni.dead && ni.obs.started {
+			ni.obs.lastConfigChange = run.sim.Now
+			run.reach("config_reverted")
 		}
 	}
 	tracer.electionStarted = func(r *Raft) {
@@ -1034,6 +1126,8 @@ func (run *simRun) installTracer() {
 			return
 		}
 		run.led.elections++
+		ni.obs.lastElectionTimeout = run.sim.Now
+		run.led.recordVote(ni, r.term, r.nid, "own candidacy")
 		run.led.candidates[r.term]++
 		if run.led.candidates[r.term] == 2 {
 			run.reach("two_candidates_one_term")
@@ -1046,6 +1140,12 @@ func (run *simRun) installTracer() {
 
 func (run *simRun) probe(name string, args []interface{}) {
 	switch name {
+	case "Raft.compactLog:exit":
+		run.reach("compaction")
+	case "Raft.onInstallSnapRequest:exit":
+		if res, _ := args[3].(rpcResult); res == success {
+			run.reach("install_snapshot")
+		}
 	case "Raft.setCommitIndex:enter":
 		// the instant a leader decides that index is committed: its own copy has been
 		// flushed, the next configuration (if this commits one) is not yet appended
@@ -1056,7 +1156,47 @@ func (run *simRun) probe(name string, args []interface{}) {
 				run.led.checkDurableOnMajority(ni, idx, t, "commit index of leader")
 			}
 		}
-	case "storage.removeGTE:exit":
+	case "Raft.onVoteRequest:enter":
+		if ni := run.raftOf[args[0].(*Raft)]; ni != nil && !ni.dead && ni.obs.started {
+			run.led.onVoteEnterStability(ni, args[1].(*voteReq))
+		}
+	case "Raft.onVoteRequest:exit":
+		if ni := run.raftOf[args[0].(*Raft)]; ni != nil && !ni.dead && ni.obs.started {
+			res, _ := args[2].(rpcResult)
+			run.led.onVoteExit(ni, args[1].(*voteReq), res)
+			if !run.stop {
+				run.led.onVoteExitStability(ni, args[1].(*voteReq), res)
+			}
+		}
+	case "Raft.onTimeoutNowRequest:exit":
+		if ni := run.raftOf[args[0].(*Raft)]; ni != nil && !ni.dead && ni.obs.started {
+			res, _ := args[1].(rpcResult)
+			run.led.onTimeoutNowExit(ni, res)
+		}
+	case "connPool.doRPC:enter":
+		// the instant a leader sends timeout-now: that is the designation of the successor
+		if req, ok := args[1].(*timeoutNowReq); ok {
+			pool := args[0].(*connPool)
+			if tn := run.node(pool.nid); tn != nil && tn.inc.live() && tn.inc.obs.started {
+				run.led.onTimeoutNowEnter(tn.inc, req)
+			}
+		}
+	case "leader.doChangeConfig:enter":
+		ld := args[0].(*leader)
+		if ni := run.raftOf[ld.Raft]; ni != nil && !ni.dead && ni.obs.started {
+			run.led.onDoChangeConfig(ni, ld, args[2].(Config))
+		}
+	case "leader.onTransfer:enter":
+		ld := args[0].(*leader)
+		if ni := run.raftOf[ld.Raft]; ni != nil && !ni.dead && ni.obs.started {
+			run.led.onTransferEnter(ni, args[1].(transferLdr))
+		}
+	case "leader.onTransfer:exit":
+		ld := args[0].(*leader)
+		if ni := run.raftOf[ld.Raft]; ni != nil && !ni.dead && ni.obs.started {
+			run.led.onTransferExit(ni, ld, args[1].(transferLdr))
+		}
+	case "storage.removeGTE:enter":
 		// a leader made this node drop a conflicting suffix: what it had acknowledged
 		// beyond that point is legitimately gone
 		st := args[0].(*storage)
@@ -1081,6 +1221,9 @@ func (run *simRun) probe(name string, args []interface{}) {
 		res, _ := args[3].(rpcResult)
 		if res == staleTerm {
 			run.reach("append_stale_term")
+		}
+		if ni.obs.started {
+			run.led.onAppendHandled(ni, args[1].(*appendReq), res)
 		}
 		if res == success {
 			// a success reply tells the leader that this node stores everything up to the
@@ -1340,7 +1483,12 @@ func (run *simRun) converged() (bool, string) {
 	return true, ""
 }
 
-func (run *simRun) finalChecks() {}
+func (run *simRun) finalChecks() {
+	run.led.checkHistory()
+	if !run.stop {
+		run.led.checkTasksAtEnd()
+	}
+}
 
 // nontrivial evaluates, per property, the reach rule of DESIGN.md section 6.1.
 func (run *simRun) nontrivial() map[string]bool {
@@ -1359,6 +1507,34 @@ func (run *simRun) nontrivial() map[string]bool {
 	m["C02"] = re["leader_change_after_commit"] > 0 && (re["truncate_conflict"] > 0 || re["elected_with_uncommitted"] > 0)
 	m["C03"] = nodes20 >= 2 && (l.leaderChanges >= 1 || re["restore"] > 0 || restarts > 0)
 	m["C04"] = re["truncate_conflict"] > 0 || re["append_stale_term"] > 0
+	m["C05"] = re["vote_request_contested_term"] > 0 || re["vote_request_in_restart_term"] > 0
+	m["C06"] = re["c06_evaluated"] > 0 && (re["c06_changed_voter_count"] > 0 || re["c06_nonvoter_holds"] > 0)
+	m["C07"] = run.phase == "done" && run.histStats[0]+run.histStats[1]+run.histStats[2] >= 30 && run.histStats[1] >= 1 && l.leaderChanges >= 1
+	crashes := fa["crash:io"] + fa["crash:step"]
+	m["C08"] = re["config_step_checked"] >= 2 && (l.leaderChanges >= 1 || crashes > 0)
+	m["C09"] = re["snapshot_published"] > 0 && re["compaction"] > 0 && (re["restore"] > 0 || re["install_snapshot"] > 0)
+	m["C10"] = fa["crash:io"] > 0 && re["restart_after_io_crash"] > 0
+	m["C11"] = (re["promotion"] > 0 || re["config_step_checked"] > 0) && (re["timeout_now_received"] > 0 || l.elections > 0)
+	m["C12"] = re["snapshot_after_config_change"] > 0
+	kinds := 0
+	for _, k := range []string{"snapshot_published", "transfer_request", "member_request"} {
+		if re[k] > 0 {
+			kinds++
+		}
+	}
+	if restarts > 0 {
+		kinds++
+	}
+	m["C15"] = kinds >= 3 && len(run.ops) >= 20
+	m["C16"] = re["transfer_accepted"] > 0
+	nfaults := 0
+	for k, v := range fa {
+		if k != "heal" && k != "restart" && k != "crash_armed" {
+			nfaults += v
+		}
+	}
+	m["C17"] = (nfaults >= 3 && (run.phase == "done" || run.phase == "shutdown")) || re["stability_clause_evaluated"] > 0
+	m["C19"] = re["status_report"] >= 20 && re["status_report_role_change"] > 0 && (re["install_snapshot"] > 0 || re["truncate_conflict"] > 0 || re["config_reverted"] > 0)
 	return m
 }
 
